@@ -51,6 +51,8 @@ impl ExclusiveTermAppender {
     }
 
     pub fn raw_tail(&self) -> i64 {
+        #[cfg(unitedtraders_aeron_rs_verif)]
+        let _verif = crate::verif_hook::enter(crate::verif_hook::AccessKind::ExclRawTail, self.tail_addr as usize, 8, 0, 0);
         unsafe { *self.tail_addr } // brrrrr....
     }
 
@@ -253,6 +255,8 @@ impl ExclusiveTermAppender {
     }
 
     fn put_raw_tail_ordered(&mut self, term_id: i64, term_offset: Index) {
+        #[cfg(unitedtraders_aeron_rs_verif)]
+        let _verif = crate::verif_hook::enter(crate::verif_hook::AccessKind::ExclPutRawTailOrdered, self.tail_addr as usize, 8, (term_id * (1_i64 << 32)) | term_offset as i64, 0);
         unsafe {
             fence(Ordering::Release);
             *(self.tail_addr as *mut i64) = (term_id * (1_i64 << 32)) | term_offset as i64;
